@@ -2,6 +2,7 @@ import DuneVerif.Proofs.C06Sched
 import DuneVerif.Proofs.C06System
 import DuneVerif.Proofs.C06Rank
 import DuneVerif.Proofs.C06Fix
+import DuneVerif.Proofs.C06Life
 /-!
 # C06 — VariableSizeCommunicator delivers every item intact for any sizes / buffer size, and returns
 
@@ -495,5 +496,89 @@ example :
     (fixStep 5 specs (fixInit 5 2 specs) (.ret 0)).isNone = true ∧
     (fixStep 5 specs (fixInit 5 2 specs) (.seen 0)).isNone = true ∧
     ((fixStep 5 specs (fixInit 5 2 specs) (.scalar 0)).bind fun g => fixStep 5 specs g (.ret 0)).isSome = true := by decide
+
+/-! ## object histories (round three)
+
+The buffer size `B` and the interface map of the theorems above are data members of the object the call is made on
+(`maxBufferSize_`, `interface_`), and the messages travel on its private communicator.  The object may have been built
+by any of the constructors, copied and assigned to any number of times (Model/C06Life.lean). -/
+
+/-- **object_histories.**  For every program of constructor calls (with or without a buffer size argument, `dflt` being
+    the default: 32768 or the value of DUNE_PARALLEL_MAX_COMMUNICATION_BUFFER_SIZE), copy constructions, assignments
+    (self-assignments included), destructions and communications:
+    the class accepts exactly the programs the value semantics accepts, and afterwards
+    (1) every object's buffer size and map are what value semantics says (a copy / an assignment takes over both from
+        its source, whatever the target was configured with before),
+    (2) no MPI call ever got a communicator that was freed or never created,
+    (3) every object owns a live communicator that is not the user's, no two objects share one (the class works on a
+        private duplicate whatever was copied from what and destroyed since),
+    (4) no communicator is leaked: the live handles are exactly the ones the live objects hold, once each. -/
+theorem object_histories (dflt : Nat) (prog : List LifeOp) :
+    match lifeExec dflt World.init prog, specExec dflt (fun _ => none) prog with
+    | some w, some σ =>
+        (∀ s, (w.slots s).map VscObj.cfg = σ s) ∧
+        w.fault = false ∧
+        (∀ s o, w.slots s = some o → o.comm ∈ w.liveComms ∧ o.comm ≠ 0) ∧
+        (∀ s t o o', w.slots s = some o → w.slots t = some o' → o.comm = o'.comm → s = t) ∧
+        (∀ c ∈ w.liveComms, ∃ s o, w.slots s = some o ∧ o.comm = c) ∧ w.liveComms.Nodup
+    | none, none => True
+    | _, _ => False := by
+  have h := lifeExec_inv dflt prog World.init (fun _ => none) LifeInv.init
+  cases h1 : lifeExec dflt World.init prog <;> cases h2 : specExec dflt (fun _ => none) prog <;> rw [h1, h2] at h
+  · trivial
+  · exact h
+  · exact h
+  · exact ⟨h.cfg, h.nofault, fun s o hs => ⟨h.comm.alive s o hs, (h.comm.fresh _ (h.comm.alive s o hs)).2⟩,
+      h.comm.priv, h.comm.noleak, h.comm.nodup⟩
+
+/-- non-vacuity, and the history the round-two check never produced: slot 0 is built with a buffer of 2 items over a
+    decoy map (1), used, then assigned from an object with buffer 16 over the case's map (0) whose original is destroyed
+    afterwards: slot 0 then has buffer 16 and map 0 on a communicator of its own (handle 3; 1 and 2 were freed). -/
+example :
+    (lifeExec 32768 World.init
+        [.construct 0 (some 2) 1, .use 0, .construct 1 (some 16) 0, .assign 0 0, .assign 0 1, .destroy 1, .use 0]).map
+      (fun w => (w.slots 0, w.slots 1, w.liveComms, w.fault))
+      = some (some ⟨16, 0, 3⟩, none, [3], false) := by decide
+
+/-- the model notices what the invariant excludes: an `operator=` without the self-assignment test would free its own
+    communicator and duplicate the dead handle (written out with the table operations) -/
+example : (((World.init.dup 0).2.free 1).dup 1).2.fault = true := by decide
+
+/-- the default constructors take the configured default -/
+example : ((lifeExec 5 World.init [.construct 3 none 0, .copy 0 3, .destroy 3]).bind (·.slots 0)).map VscObj.cfg
+    = some (5, 0) := by decide
+
+/-- **delivery_after_history.**  `delivery_both_directions` for a call made on an object with an arbitrary history: if
+    value semantics says slot `s` holds an object with buffer size `Bs` and map `m`, the object the class actually has
+    there carries exactly this configuration on a live private communicator, and with its `maxBufferSize` as the buffer
+    size what rank `q` scatters for its neighbour entry `e` is `expectedCalls` and the exchange returns — provided `Bs`
+    can hold the largest index (all ranks run the same program, so all use the same size). -/
+theorem delivery_after_history (dflt : Nat) (prog : List LifeOp) (w : World) (σ : SpecWorld)
+    (hw : lifeExec dflt World.init prog = some w) (hσ : specExec dflt (fun _ => none) prog = some σ)
+    (s Bs m : Nat) (hs : σ s = some (Bs, m)) (hB : 0 < Bs)
+    (fwd : Bool) (ranks : List (RankData α)) (q : Nat)
+    (e : IfaceEntry) (pd : RankData α) (hpd : ranks[e.rank]? = some pd)
+    (pe : IfaceEntry) (hpe : pe ∈ pd.imap) (hrank : pe.rank = q) (huniq : ∀ x ∈ pd.imap, x.rank = q → x = pe)
+    (hlen : (e.recv fwd).length = (pe.send fwd).length)
+    (hvar : pd.handle.fixed = false → ∀ i ∈ pe.send fwd, pd.handle.size i ≤ Bs)
+    (f : Nat) (hfix : pd.handle.fixed = true → f ≠ 0 ∧ f ≤ Bs ∧ ∀ x ∈ pd.imap, ∀ i ∈ x.send fwd, pd.handle.size i = f) :
+    ∃ o, w.slots s = some o ∧ o.maxBufferSize = Bs ∧ o.interface = m ∧ w.valid o.comm = true ∧ w.fault = false ∧
+      ∃ r, receiveFrom true o.maxBufferSize fwd ranks q e = some r ∧
+        r.calls = expectedCalls pd.handle (pe.send fwd) (e.recv fwd) ∧ r.returns = true := by
+  have h := object_histories dflt prog
+  rw [hw, hσ] at h
+  obtain ⟨hcfg, hfault, halive, _, _, _⟩ := h
+  have hc := hcfg s
+  rw [hs] at hc
+  cases ho : w.slots s with
+  | none => rw [ho] at hc; cases hc
+  | some o =>
+    rw [ho] at hc
+    have hc' : o.cfg = (Bs, m) := by simpa using hc
+    have hb : o.maxBufferSize = Bs := congrArg Prod.fst hc'
+    have hm : o.interface = m := congrArg Prod.snd hc'
+    refine ⟨o, rfl, hb, hm, valid_of_mem w _ (halive s o ho).1, hfault, ?_⟩
+    rw [hb]
+    exact delivery_both_directions Bs hB fwd ranks q e pd hpd pe hpe hrank huniq hlen hvar f hfix
 
 end DV.C06
